@@ -118,6 +118,11 @@ static MOp randomOp(vh::Rng& r, int nn, int step) {
   o.op = k < 3 ? 0 : k < 5 ? 1 : k < 10 ? 2 : k < 13 ? 3 : k < 16 ? 4 : k < 17 ? 5 : k < 19 ? 6 : 7;
   o.a = (int)r.below(nn); o.b = (int)r.below(nn); o.d = step + 1;
   if (!g_selfloops && o.op >= 2 && o.op <= 6 && o.a == o.b) o.b = (o.a + 1) % nn;   // self loops only in flagged executions
+  // parallel edges only between designated pairs and with one constant datum, so that "remove / update
+  // the edge a->b" has one outcome up to isomorphism (the trace specification stays deterministic)
+  bool multiPair = ((o.a + 2 * o.b) % 3 == 0);
+  if (o.op == 3) { if (!multiPair) o.op = 2; else o.d = 7; }
+  if (multiPair && (o.op == 2 || o.op == 6)) o.op = 3, o.d = 7;
   return o;
 }
 
@@ -166,7 +171,7 @@ static void flavour(const char* name, vh::Rng& rng, bool thorough) {
     for (int i = 0; i < CN; ++i) { MOp o{0, i, 0, 0}; VL r = d.apply(o); d.track(o); L->ev(0, opJson(0, o, r)); }
     // the program: node removals only for dedicated victims at the end of the id range so that the
     // applicability of the other operations does not depend on the schedule
-    int nops = ctl ? 4 + (int)rng.below(5) : 20 + (int)rng.below(thorough ? 200 : 60);
+    int nops = ctl ? 8 + (int)rng.below(12) : 20 + (int)rng.below(thorough ? 200 : 60);
     std::vector<MOp> prog;
     vh::Rng pr(s);
     int fresh = CN;
@@ -179,7 +184,7 @@ static void flavour(const char* name, vh::Rng& rng, bool thorough) {
     bool removeLast = pr.coin(1, 2);
     if (removeLast) prog.push_back(MOp{1, CN - 1, 0, 0});                       // one iteration removes node CN-1 (nobody else touches it)
     // a few edges towards the victim beforehand, so that removal has something to hide
-    if (removeLast) { MOp o{3, 0, CN - 1, 77}; VL r = d.apply(o); L->ev(0, opJson(0, o, r)); }
+    if (removeLast) { MOp o{3, 0, CN - 1, 7}; VL r = d.apply(o); L->ev(0, opJson(0, o, r)); }
     std::vector<int> idx(prog.size());
     for (size_t i = 0; i < idx.size(); ++i) idx[i] = (int)i;
     galois::setActiveThreads(threads);
@@ -193,26 +198,9 @@ static void flavour(const char* name, vh::Rng& rng, bool thorough) {
     galois::for_each(
         galois::iterate(idx),
         [&](int i, auto&) {
-          static int att[4096];
-          int myatt = __atomic_add_fetch(&att[i], 1, __ATOMIC_SEQ_CST);
           // the mutator acquires what it needs (default flags) before it writes: cautious by construction
           VL r = d.apply(prog[i]);
-          r.push_back(2000 + myatt); att[i] = 0;
-          if (prog[i].op >= 2 && prog[i].op <= 6) {   // visible out-degree of the source, still owned
-            long cnt = 0;
-            auto n = d.node[prog[i].a];
-            for (auto e = d.g.edge_begin(n, galois::MethodFlag::UNPROTECTED); e != d.g.edge_end(n, galois::MethodFlag::UNPROTECTED); ++e) ++cnt;
-            r.push_back(1000 + cnt);
-          }
           // still owning everything it touched: this is the commit point of the iteration
-          {
-            static volatile int occ[256];
-            int a = prog[i].a, o = occ[a];
-            occ[a] = o + 1;
-            for (volatile int w = 0; w < 200; ++w) {}
-            if (occ[a] != o + 1 || o != 0) L->ev(galois::substrate::ThreadPool::getTID(), ks("ev", "overlap") + "," + kv("node", a) + "," + ks("op", OPN[prog[i].op]));
-            occ[a] = o;
-          }
           L->ev(galois::substrate::ThreadPool::getTID(), opJson(galois::substrate::ThreadPool::getTID(), prog[i], r));
         },
         galois::no_stats(), galois::no_pushes(), galois::loopname("morph"), galois::wl<galois::worklists::PerSocketChunkFIFO<2>>());
